@@ -24,6 +24,7 @@ import (
 
 	"github.com/traefik/yaegi/interp"
 	"github.com/traefik/yaegi/stdlib"
+	"github.com/traefik/yaegi/stdlib/unrestricted"
 	"verif/engine/par"
 	"verif/engine/report"
 )
@@ -68,6 +69,15 @@ func probeMain() {
 	}
 	before := append([]string{}, os.Environ()...)
 	sort.Strings(before)
+	if k.Kind == "multi" {
+		probeMulti(k, &rep)
+		after := append([]string{}, os.Environ()...)
+		sort.Strings(after)
+		rep.HostSame = strings.Join(before, "\x00") == strings.Join(after, "\x00")
+		rep.Done = true
+		emit()
+		return
+	}
 	var out, errb bytes.Buffer
 	opts := interp.Options{Stdout: &out, Stderr: &errb, Stdin: strings.NewReader("42 hello\n7\n"), Args: []string{"prog", "-n", "7", "rest"}, Env: k.Env}
 	if k.EvilFS {
@@ -132,6 +142,59 @@ func probeMain() {
 	rep.HostSame = strings.Join(before, "\x00") == strings.Join(after, "\x00")
 	rep.Done = true
 	emit()
+}
+
+// probeMulti: several interpreters in one host process must not share their virtualised state.
+func probeMulti(k kase, rep *probeReport) {
+	defer func() {
+		if r := recover(); r != nil {
+			rep.Err = fmt.Sprint("HOSTPANIC: ", r)
+		}
+	}()
+	mk := func(env, args []string, out *bytes.Buffer, unrestrictedToo bool) *interp.Interpreter {
+		i := interp.New(interp.Options{Stdout: out, Stderr: &bytes.Buffer{}, Env: env, Args: args})
+		i.Use(stdlib.Symbols)
+		if unrestrictedToo {
+			i.Use(unrestricted.Symbols)
+		}
+		return i
+	}
+	var oa, ob bytes.Buffer
+	switch k.Name {
+	case "multi: two restricted interpreters, interleaved":
+		a := mk([]string{"A=fromA"}, []string{"progA"}, &oa, false)
+		b := mk([]string{"A=fromB"}, []string{"progB"}, &ob, false)
+		if _, err := a.Eval("import (\"fmt\"; \"os\")\nfunc ShowA() { fmt.Println(os.Getenv(\"A\"), os.Args, os.Getenv(\"X\")) }"); err != nil {
+			rep.Err = err.Error()
+			return
+		}
+		if _, err := b.Eval("import (\"fmt\"; \"os\")\nfunc ShowB() { fmt.Println(os.Getenv(\"A\"), os.Args, os.Getenv(\"X\")) }"); err != nil {
+			rep.Err = err.Error()
+			return
+		}
+		a.Eval("os.Setenv(\"X\", \"setByA\")")
+		a.Eval("ShowA()")
+		b.Eval("ShowB()")
+		b.Eval("os.Clearenv()")
+		a.Eval("ShowA()")
+	case "multi: restricted interpreter created after an unrestricted one":
+		mk(nil, nil, &ob, true)
+		a := mk(nil, nil, &oa, false)
+		_, err := a.Eval("package main\n\nimport (\n\t\"fmt\"\n\t\"io\"\n\t\"log\"\n\t\"os\"\n)\n\nfunc try(f func()) {\n\tdefer func() { fmt.Println(\"recovered\", recover() != nil) }()\n\tf()\n}\n\nfunc main() {\n\ttry(func() { os.Exit(3) })\n\ttry(func() { log.Fatal(\"x\") })\n\ttry(func() { log.New(io.Discard, \"\", 0).Fatal(\"y\") })\n}\n")
+		if err != nil {
+			rep.Err = err.Error()
+		}
+	case "multi: restricted interpreter used while an unrestricted one exists":
+		u := mk(nil, nil, &ob, true)
+		a := mk([]string{"A=fromA"}, []string{"progA"}, &oa, false)
+		u.Eval("import \"os\"")
+		_, err := a.Eval("package main\n\nimport (\n\t\"fmt\"\n\t\"os\"\n)\n\nfunc main() {\n\tdefer func() { fmt.Println(\"recovered\", recover() != nil) }()\n\tfmt.Println(os.Getenv(\"A\"), os.Getenv(\"HOSTONLY\"), os.Args)\n\tos.Exit(4)\n}\n")
+		if err != nil {
+			rep.Err = err.Error()
+		}
+	}
+	rep.Out = oa.String()
+	rep.ErrOut = ob.String()
 }
 
 // envStep applies one operation to the script's environment and to the model; returns both observations.
@@ -301,6 +364,14 @@ func one(k kase) *fail {
 			if rep.Obs[i] != rep.Model[i] {
 				return bad("step %d (%s): script observed %q, map model %q", i+1, k.Ops[i], rep.Obs[i], rep.Model[i])
 			}
+		}
+	case "multi":
+		par.Distinct("obs", "multi:"+rep.Out+"|"+rep.ErrOut)
+		if rep.Err != "" {
+			return bad("error: %s", rep.Err)
+		}
+		if rep.Out != k.Want || rep.ErrOut != k.WantE {
+			return bad("interpreter A printed %q (want %q), interpreter B printed %q (want %q)", rep.Out, k.Want, rep.ErrOut, k.WantE)
 		}
 	case "stream":
 		par.Distinct("obs", "stream:"+rep.Out+"|"+rep.ErrOut)
@@ -651,6 +722,11 @@ func main() {
 	envK := envCases(r.Thorough())
 	ks = append(ks, envK...)
 	ks = append(ks, streamCases()...)
+	ks = append(ks,
+		kase{Kind: "multi", Name: "multi: two restricted interpreters, interleaved", Want: "fromA [progA] setByA\nfromA [progA] setByA\n", WantE: "fromB [progB] \n"},
+		kase{Kind: "multi", Name: "multi: restricted interpreter created after an unrestricted one", Want: "recovered true\nrecovered true\nrecovered true\n", WantE: ""},
+		kase{Kind: "multi", Name: "multi: restricted interpreter used while an unrestricted one exists", Want: "fromA  [progA]\nrecovered true\n", WantE: ""},
+	)
 	// complete scan of the default table for forbidden package keys
 	for key := range stdlib.Symbols {
 		for _, p := range []string{"unsafe", "syscall", "os/exec"} {
@@ -682,11 +758,11 @@ func main() {
 	r.Set("transitions", res.Counts["env_steps"]+n-res.Counts["kind_env"])
 	r.Set("traces_validated_against_impl", n)
 	r.Set("distinct_nontrivial", len(res.Sets["obs"]))
-	for _, k := range []string{"import", "exit", "env", "stream"} {
+	for _, k := range []string{"import", "exit", "env", "stream", "multi"} {
 		r.Set("cases_"+k, res.Counts["kind_"+k])
 	}
 	r.Set("exhaustive", true)
-	r.Set("rule", "imports: 3 forbidden packages x 10 import forms; exit: os.Exit, log.Fatal* and Fatal/Fatalf/Fatalln on every logger source discovered by reflection in the default table; env: BFS to closure over map-model states (3 keys x 3 values) from 4 initial Options.Env, every op from every state, plus all op sequences of length <= 2 (thorough 3); streams: 22 redirected I/O uses; every case runs in its own probe process whose exit status, real stdout/stderr and environment are observed from outside; states = distinct observations")
+	r.Set("rule", "imports: 3 forbidden packages x 10 import forms; exit: os.Exit, log.Fatal* and Fatal/Fatalf/Fatalln on every logger source discovered by reflection in the default table; env: BFS to closure over map-model states (3 keys x 3 values) from 4 initial Options.Env, every op from every state, plus all op sequences of length <= 2 (thorough 3); streams: 21 redirected I/O uses; multi: several interpreters (restricted / unrestricted) in one host process keep separate environments, arguments, streams and exit overrides; every case runs in its own probe process whose exit status, real stdout/stderr and environment are observed from outside; states = distinct observations")
 	r.Assumptions = []string{"writing to os.Stdout/os.Stderr explicitly is a documented escape and is not demanded", "reference model of the environment = a plain map"}
 	for _, i := range []int{0, len(ks) / 2, len(ks) - 1} {
 		r.Sample(ks[i])
